@@ -36,7 +36,7 @@ Definition check_v1 (v : list Z * Z * list (list Z * list Z * list Z) * list Z *
 Definition legacy_in_domain (v : list Z * Z * list Z * Z * list Z) : bool :=
   let '(_, idx, _, ht, _) := v in
   let h := Z.to_N ht in
-  negb (128 <=? h mod 256) && negb (N.testbit h 6) && (negb (h mod 32 =? 3) || (Z.to_nat idx =? 0)%nat).
+  negb (N.testbit h 6) && (negb (h mod 32 =? 3) || (Z.to_nat idx =? 0)%nat).
 
 Theorem vectors_legacy_ok : forallb (fun v => negb (legacy_in_domain v) || check_legacy v) g_vec_legacy = true.
 Proof. vm_compute. reflexivity. Qed.
